@@ -702,6 +702,28 @@ pub fn c19(opts: &Opts) -> Report {
                 if twice != once { viol(ctx, "property", format!("C19: strip_ansi is not idempotent on {s:?}: {} vs {}", once.show(), twice.show()), vec![("template", "{strip_ansi|strip_ansi}".into()), ("input", s), ("observed", twice.show()), ("expected", once.show()), ("theorem", "C19_idempotent".into())]); }
                 return;
             }
+            if i % 10 == 6 {
+                // inside map after a split whose separator interacts with the sequences: (a) a separator of two characters
+                // with a sequence between them (only the stripped text contains the separator), (b) a separator that
+                // occurs inside the parameters / payload of a sequence (items end in the middle of a sequence), (c) items
+                // ending in a two-character escape.  The reference is the model: split first, strip each item on its own.
+                let (sep, x): (String, String) = match ctx.rng.below(4) {
+                    0 => { let s2 = ctx.rng.pick(&["ab", "::", "→→", "--"]).to_string(); let cs: Vec<char> = s2.chars().collect(); let q = gen_seq(&mut ctx.rng);
+                           (s2.clone(), format!("x{}{}{}y{}z", cs[0], q, cs[1], s2)) }
+                    1 => (";".into(), format!("\x1b[38;5;196mred\x1b[0m;2the docs;{}", clean_text(&mut ctx.rng).replace(';', ""))),
+                    2 => (",".into(), format!("\x1b]8;;http://e.x/a,b\x1b\\link\x1b]8;;\x1b\\,ñandú,plain")),
+                    _ => (",".into(), format!("a\x1b{},ñandú,b\x1b{},5", *ctx.rng.pick(&['N', 'O', 'P', ']', '[']), *ctx.rng.pick(&['N', 'O', '(']))),
+                };
+                let glue = ctx.rng.pick(&["+", "|", ""]).to_string();
+                let ops = vec![Op::Split(sep.clone(), Range::Range(None, None, false)), Op::Map(vec![Op::StripAnsi]), Op::Join(glue)];
+                let t = super::common::triple(ctx, &ops, &x, false);
+                ctx.rep.bump("split_across_sequences"); ctx.rep.nontrivial(&(t.text.clone(), x.clone()));
+                if t.real != t.spec || t.impl_model != t.real {
+                    viol(ctx, if t.real != t.spec { "property" } else { "correspondence" }, format!("C19: format({:?}, {x:?}) = {} but stripping each item of the split on its own gives {} (Impl model {})", t.text, t.real.show(), t.spec.show(), t.impl_model.show()),
+                         vec![("template", t.text.clone()), ("input", x.clone()), ("observed", t.real.show()), ("expected", t.spec.show()), ("theorem", "C19_operation_applies_it".into())]);
+                }
+                return;
+            }
             let nparts = 1 + ctx.rng.below(6);
             let mut decorated = String::new(); let mut plain = String::new(); let mut nseq = 0;
             for _ in 0..nparts {
